@@ -118,6 +118,9 @@ def select_traces(ctx, rng):
             traces += rng.sample(lst, min(n, len(lst)))
     nrand = 100 if ctx.quick else 3000
     traces += [tg.random_trace(rng, "rand%d" % i) for i in range(nrand)]
+    # tied time stamps (real traces stamp in microseconds and the parser compares f32 seconds): the merge of the per-cpu
+    # pages must keep the traced order of events with equal stamps
+    traces += [tg.with_ties(tg.random_trace(rng, "tie%d" % i, nev=rng.choice([30, 60, 120])), rng) for i in range(nrand // 4)]
     return traces
 
 
